@@ -26,6 +26,22 @@ pub fn judge(c: &Case, r: &RunReport, st: &mut Stats) {
         st.violation(Violation { kind: "c06.run".into(), signature: sig.into(), case: serde_json::to_value(c).unwrap(), detail: json!({"what": v.what, "observed": v.detail}) });
         return;
     }
+    // A proposal without a defined score - or, at zero temperature, with a worse one - is
+    // necessarily rejected.  If it is nevertheless the state the following proposals derive
+    // from, the rejected move has left a trace (from the boundary it looks like an acceptance).
+    let kt0 = match c {
+        Case::Scripted(sc) => sc.cfg.kt_start == 0.,
+        Case::Real { cfg, .. } => cfg.kt_start == 0.,
+    };
+    if let Some(d) = r.resolved.iter().find(|d| d.accepted && (d.new.is_none() || (kt0 && d.new.map(|n| n < d.old).unwrap_or(false)))) {
+        st.violation(Violation {
+            kind: "c06.run".into(),
+            signature: "optimise_state:necessarily-rejected-proposal-persisted".into(),
+            case: serde_json::to_value(c).unwrap(),
+            detail: json!({"proposal": d.step, "old_score": d.old, "new_score": d.new, "zero_temperature": kt0}),
+        });
+        return;
+    }
     if r.panicked.is_some() {
         st.count("runs_that_panicked(not a C06 event; C20 decides)");
         return;
